@@ -118,7 +118,14 @@ def template(node, env, nl_attrs=(), depth=0):
                 fmt = ""
                 if v.format_spec is not None:
                     fmt = "".join(x.value for x in v.format_spec.values if isinstance(x, ast.Constant))
-                out += _ph(v.value, env, fmt, nl_attrs, depth)
+                inner = v.value
+                if not fmt and isinstance(inner, ast.Name):
+                    n2, e2 = resolve(inner, env)
+                    if n2 is not inner and (isinstance(n2, ast.JoinedStr) or (
+                            isinstance(n2, ast.Call) and isinstance(n2.func, ast.Attribute) and n2.func.attr == "join")):
+                        out += template(n2, e2, nl_attrs, depth + 1)
+                        continue
+                out += _ph(inner, env, fmt, nl_attrs, depth)
         return out
     if isinstance(node, ast.BinOp) and isinstance(node.op, ast.Add):
         return template(node.left, env, nl_attrs, depth + 1) + template(node.right, env, nl_attrs, depth + 1)
